@@ -5,7 +5,7 @@ def M(prop, name, file, old, new, expect, **kw):
 # ---------------- C05
 M('C05','get-nolock','kvstore/mapdb/synced_map.go','''	s.RLock()
 	defer s.RUnlock()
-	value, ok := s.m[string(key)]''','''	value, ok := s.m[string(key)]''','lock/guarded-by syncedKVMap.m in kvstore/mapdb.syncedKVMap.get')
+	value, ok := s.m[string(key)]''','''	value, ok := s.m[string(key)]''','lock/guarded-by syncedKVMap.get() in kvstore/mapdb.mapDB.Get')
 M('C05','deleteprefix-rlock','kvstore/mapdb/synced_map.go','''	s.Lock()
 	defer s.Unlock()
 	prefix := string(keyPrefix)''','''	s.RLock()
@@ -686,7 +686,7 @@ M('C17','lock-grant-before-loop','runtime/syncutils/starvingmutex.go','''	f.pend
 		close(doneChan)
 	}
 	f.pendingWriters--''','excl/bookkeeping runtime/syncutils.StarvingMutex.Lock writerActive = true')
-M('C17','canwrite-ignores-readers','runtime/syncutils/starvingmutex.go','return !f.writerActive && f.readersActive == 0','return !f.writerActive','excl/bookkeeping runtime/syncutils.StarvingMutex.canWrite')
+M('C17','canwrite-ignores-readers','runtime/syncutils/starvingmutex.go','return !f.writerActive && f.readersActive == 0','return !f.writerActive','excl/bookkeeping runtime/syncutils.StarvingMutex.Lock writerActive = true')
 M('C17','rlock-ignores-writer','runtime/syncutils/starvingmutex.go','''	for f.writerActive {
 		f.readerCond.Wait()
 	}
@@ -1046,7 +1046,7 @@ M('C19','safediv-no-min-guard','core/safemath/safe_math.go','''	if minusOne := ^
 M('C19','safemul-no-min-guard','core/safemath/safe_math.go','''	if minusOne := ^T(0); minusOne < 0 && x == minusOne && y == -y {
 		return 0, ierrors.WithMessagef(ErrIntegerOverflow, "%d * %d", x, y)
 	}
-''','','signed-div/guarded result / x in core/safemath.SafeMul')
+''','','signed-div/guarded (x*y) / x in core/safemath.SafeMul')
 M('C19','new-signed-division','core/safemath/safe_math.go','''func SafeLeftShift[T Integer](val T, shift uint8) (T, error) {''','''func SafeHalf[T Integer](val T, by T) T {
 	if by == 0 {
 		return 0
